@@ -115,6 +115,7 @@ func (s *atpServerSession) handleClosure() []*ServerError {
 	var errors []*ServerError
 	outputBroken := false
 	stdinClosed := false
+	cancelled := s.ctx.Done()
 closeLoop:
 	for {
 		select {
@@ -155,9 +156,21 @@ closeLoop:
 					})
 				}
 			}
-		case <-s.ctx.Done():
-			// Likely got sigterm. Just close. Ideally gracefully.
-			break closeLoop
+		case <-cancelled:
+			// Likely got sigterm. Stop reading input, but keep reporting: the steps that are still running see the
+			// cancellation too, and what they have to say is taken until they have all finished and workDone is closed.
+			cancelled = nil
+			if !stdinClosed {
+				stdinClosed = true
+				if err := s.stdinCloser.Close(); err != nil {
+					return append(errors, &ServerError{
+						RunID:       "",
+						Err:         fmt.Errorf("error closing stdin (%w) after the context was cancelled", err),
+						StepFatal:   true,
+						ServerFatal: true,
+					})
+				}
+			}
 		}
 	}
 	// Now close the pipe that it gets input from.
